@@ -513,9 +513,104 @@ def judge(ctx, case, log, marks, wit) -> None:
     ctx.count("histories")
 
 
+def same_name_case(ctx, seed: str, index: int) -> None:
+    """Two to three distinct Task objects carrying the SAME name (the registry is a set of objects; nothing in the statement
+    ties a task to its name): every object's target is judged by its own running flag, independent of any name."""
+    rng = random.Random(seed)
+    k = rng.choice((2, 2, 3))
+    restart = [rng.random() < 0.7 for _ in range(k)]
+    plan = [rng.choice(("loss", "remove-first", "remove-last", "restart-first", "none")) for _ in range(rng.randint(1, 3))]
+    gaps = [rng.choice((0.0, 0.5, 2.0)) for _ in range(k + len(plan) + 1)]
+    running = [0] * k
+    entered = [0] * k
+    obs: list = []
+
+    async def main(loop):
+        xknx = make_xknx(connect_on_start=True, disconnect_on_stop=False)
+        await xknx.start()
+
+        def target(j):
+            async def run():
+                running[j] += 1
+                entered[j] += 1
+                try:
+                    await asyncio.sleep(10_000)
+                finally:
+                    running[j] -= 1
+            return run
+
+        tasks = [Task(name="c36-same-name", target=target(j), restart_after_reconnect=restart[j]) for j in range(k)]
+        registered = [False] * k
+
+        async def settle(what):
+            for _ in range(4):
+                await asyncio.sleep(0)
+            obs.append((what, xknx.connection_manager.state.name, list(running), list(registered)))
+
+        for j in range(k):
+            xknx.task_registry.start_task(tasks[j])
+            registered[j] = True
+            if gaps[j]:
+                await asyncio.sleep(gaps[j])
+            await settle(f"start-{j}")
+        for n, step in enumerate(plan):
+            if step == "loss":
+                set_state(xknx, DISCONNECTED)
+                await settle("loss")
+                if gaps[k + n]:
+                    await asyncio.sleep(gaps[k + n])
+                set_state(xknx, CONNECTED)
+                await settle("reconnect")
+            elif step.startswith("remove"):
+                j = 0 if step == "remove-first" else k - 1
+                xknx.task_registry.remove_task(tasks[j])
+                registered[j] = False
+                await settle(step)
+            elif step == "restart-first":
+                xknx.task_registry.start_task(tasks[0])
+                registered[0] = True
+                await settle(step)
+        if rng.random() < 0.5:
+            await xknx.stop()
+        else:
+            xknx.task_registry.stop()
+        registered[:] = [False] * k
+        await settle("stop")
+        xknx.started.clear()
+
+    res = run_case(main, max_vtime=5000.0)
+    wit = {"same_name": True, "case_seed": seed, "index": index, "objects": k, "restart_after_reconnect": restart, "plan": plan,
+           "observed": [(w, s, r) for w, s, r, _g in obs]}
+    ctx.ev()
+    ctx.count("same_name_histories")
+    if res.error or res.deadlock or res.budget:
+        ctx.violation("history-aborted", dict(wit, error=res.error, deadlock=res.deadlock, budget=res.budget),
+                      f"same-name history aborted: {res.error} deadlock={res.deadlock} budget={res.budget}")
+        return
+    for what, state, run_now, reg in obs:
+        for j in range(k):
+            ctx.count("same_name_settle_points_checked")
+            if run_now[j] > 1:
+                ctx.violation("same-name-task-object-runs-twice", dict(wit, at=what, object=j),
+                              f"object {j} of {k} same-named Tasks has {run_now[j]} running targets after {what}")
+            elif what == "stop" and run_now[j]:
+                ctx.violation("same-name-task-still-running-after-registry-stop", dict(wit, at=what, object=j),
+                              f"object {j} of {k} same-named Tasks is still running after the registry was stopped")
+            elif not reg[j] and run_now[j]:
+                ctx.violation("same-name-task-still-running-after-remove_task", dict(wit, at=what, object=j),
+                              f"object {j} of {k} same-named Tasks is still running after {what}")
+            elif what == "loss" and restart[j] and run_now[j]:
+                ctx.violation("same-name-restart-task-running-while-disconnected", dict(wit, at=what, object=j),
+                              f"object {j} (restart_after_reconnect) of {k} same-named Tasks is running while disconnected")
+            elif reg[j] and state == "CONNECTED" and what != "stop" and not run_now[j]:
+                ctx.violation("same-name-registered-task-not-running-while-connected", dict(wit, at=what, object=j),
+                              f"object {j} of {k} same-named Tasks is registered but not running after {what}")
+    ctx.distinct(("same-name", k, tuple(restart), tuple(plan)))
+
+
 def run(ctx):
     ctx.rule = ("history = 1-4 Tasks (first one cycles through all 16 option sets) x 8-30 timed operations {start_task, remove_task, state change} "
-                "+ registry stop + state changes after stop; distinct = (task option/target tuple, operation string)")
+                "+ registry stop + state changes after stop; plus histories of 2-3 distinct Task objects sharing one name (judged by per-object running flags); distinct = (task option/target tuple, operation string)")
     ctx.require("target_enters", "windows_expect_no_target_call", "windows_expect_target_call", "started_once_as_expected",
                 "reconnections_of_restart_tasks", "losses_with_restart_task_registered", "no_instance_after_connection-loss",
                 "no_instance_after_remove_task", "no_instance_after_registry-stop", "settle_points_checked",
@@ -530,6 +625,10 @@ def run(ctx):
     for i in range(n):
         if ctx.mine(i):
             run_one(ctx, f"C36/{ctx.seed}/{i}", i)
+    for i in range(ctx.scale(120, 6000)):
+        if ctx.mine(i):
+            same_name_case(ctx, f"C36/same-name/{ctx.seed}/{i}", i)
+    ctx.require("same_name_histories", "same_name_settle_points_checked")
     for o in OPTION_SETS:
         key = f"optionset_restart={int(o[0])},waitc={int(o[1])},wbs={o[2]},rep={o[3]}"
         ctx.require(key)
@@ -537,6 +636,9 @@ def run(ctx):
 
 def replay(ctx, witness):
     ctx.rule = "replay of one recorded case"
-    run_one(ctx, witness["case_seed"], witness["index"])
+    if witness.get("same_name"):
+        same_name_case(ctx, witness["case_seed"], witness["index"])
+    else:
+        run_one(ctx, witness["case_seed"], witness["index"])
     ctx.distinct("replay-a")
     ctx.distinct("replay-b")
